@@ -980,3 +980,93 @@ def _render_one(M, fa):
         if base == '(usize, usize)': return dbg_loc(M, v)
     return _old_render_one(M, fa)
 mo.render_one = _render_one
+
+@model_re(r'^<Option<.*> as PartialEq>::(eq|ne)$')
+def _(M, a, c):
+    x, y = V(a[0]), V(a[1]); neg = norm_name(c).endswith('::ne')
+    if x.variant != y.variant: return neg
+    if x.variant == 0: return not neg
+    p, q = deref_all(x.fields[0]), deref_all(y.fields[0])
+    if isinstance(p, Int): r = M.binop('Eq', p, q)
+    elif isinstance(p, bool) or (not isinstance(p, (Agg, Native)) and z3.is_expr(p)): r = beq(p, q)
+    elif isinstance(p, Native) and p.kind == 'String': r = ms.m_str_eq(M, [p, q], c)
+    elif isinstance(p, Agg) and M.lookup('<%s as PartialEq>::eq' % p.ty) is not None:
+        r = M.call(M.lookup('<%s as PartialEq>::eq' % p.ty), [Ref([p], 0), Ref([q], 0)])
+    else: raise Unsupported("Option<T> == for T = %r" % (p,))
+    return bnot(r) if neg else r
+
+def generic_eq(M, p, q):
+    """structural PartialEq of std composites (derive semantics): returns python bool or z3 Bool"""
+    p, q = deref_all(p), deref_all(q)
+    if isinstance(p, Int) and isinstance(q, Int): return M.binop('Eq', p, q)
+    if isinstance(p, bool) or isinstance(q, bool) or (not isinstance(p, (Agg, Native, Slice)) and z3.is_expr(p)): return beq(p, q)
+    if isinstance(p, (Native, Slice)) and isinstance(q, (Native, Slice)):
+        kp = p.kind if isinstance(p, Native) else 'Slice'
+        if kp in ('String', 'Vec', 'Slice'):
+            pb, plo, phi = _list_of(p); qb, qlo, qhi = _list_of(q)
+            if phi - plo != qhi - qlo: return False
+            r = True
+            for x, y in zip(pb[plo:phi], qb[qlo:qhi]): r = band(r, generic_eq(M, x, y))
+            return r
+        if kp in ('Arc', 'Rc'): return generic_eq(M, p.d['inner'], q.d['inner'])
+        if kp == 'Box': return generic_eq(M, p.d['slot'][0], q.d['slot'][0])
+        raise Unsupported("== on " + kp)
+    if isinstance(p, Agg) and isinstance(q, Agg):
+        if p.ty not in ('tuple', 'Option', 'Result', 'array', 'ParseIntError', 'IntErrorKind', 'Ordering'):
+            key = M.lookup('<%s as PartialEq>::eq' % p.ty)
+            if key is not None: return M.call(key, [Ref([p], 0), Ref([q], 0)])
+        if p.variant != q.variant or len(p.fields) != len(q.fields): return False
+        r = True
+        for x, y in zip(p.fields, q.fields): r = band(r, generic_eq(M, x, y))
+        return r
+    raise Unsupported("== on %r / %r" % (type(p).__name__, type(q).__name__))
+@model_re(r'^<(std::result::Result<.*>|Result<.*>|Option<.*>|\(.*\)|Vec<.*>|\[.*\]|&\[.*\]|ParseIntError|IntErrorKind|std::cmp::Ordering) as PartialEq(<.*>)?>::(eq|ne)$')
+def _(M, a, c):
+    r = generic_eq(M, a[0], a[1])
+    return bnot(r) if norm_name(c).endswith('::ne') else r
+
+def _sort_key(M, k):
+    k = deref_all(k)
+    if isinstance(k, Int):
+        if k.sym(): raise Unsupported("sort on symbolic integer keys")
+        return (0, k.v)
+    if isinstance(k, (Native, Slice)) and (isinstance(k, Slice) or k.kind in ('String', 'Vec')):
+        b, lo, hi = _list_of(k)
+        if any(isinstance(e, Dec) or e.sym() for e in b[lo:hi]): raise Unsupported("sort on symbolic string keys")
+        return (1, bytes(e.v for e in b[lo:hi]))
+    if isinstance(k, bool): return (2, k)
+    if isinstance(k, Agg) and k.ty == 'tuple': return (3, tuple(_sort_key(M, f) for f in k.fields))
+    raise Unsupported("sort key %r" % (k,))
+@model_re(r'^(std|core|alloc)::slice::<impl \[.*\]>::(sort|sort_unstable|sort_by_key|sort_unstable_by_key|sort_by|sort_unstable_by|sort_by_cached_key)$|^Vec::(sort|sort_by_key|sort_by|sort_unstable|dedup)$')
+def _(M, a, c):
+    fn = norm_name(c).split('::')[-1]; b, lo, hi = _list_of(a[0]); items = b[lo:hi]
+    if fn in ('sort', 'sort_unstable'): keyed = sorted(items, key=lambda x: _sort_key(M, x))
+    elif 'by_key' in fn or 'cached_key' in fn: keyed = sorted(items, key=lambda x: _sort_key(M, callf(M, a[1], [Ref([x], 0)])))
+    elif fn in ('sort_by', 'sort_unstable_by'):
+        import functools
+        def cmp(x, y):
+            o = callf(M, a[1], [Ref([x], 0), Ref([y], 0)]); return o.variant - 1
+        keyed = sorted(items, key=functools.cmp_to_key(cmp))
+    else: raise Unsupported("slice::" + fn)
+    b[lo:hi] = keyed
+    return UNIT
+@model_re(r'^(std|core|alloc)::str::<impl str>::(to_lowercase|to_uppercase|to_ascii_lowercase|to_ascii_uppercase)$|^core::str::<impl str>::(to_lowercase|to_uppercase|to_ascii_lowercase|to_ascii_uppercase)$')
+def _(M, a, c):
+    fn = norm_name(c).split('::')[-1]; items = list(_bytes(a[0]).items()); out = []
+    for e in items:
+        if isinstance(e, Dec) or e.sym(): raise Unsupported("case mapping of a symbolic string")
+        if e.v >= 0x80 and 'ascii' not in fn: raise Unsupported("Unicode case mapping of non-ASCII text")
+        v = e.v
+        if 'lower' in fn and 0x41 <= v <= 0x5a: v += 32
+        if 'upper' in fn and 0x61 <= v <= 0x7a: v -= 32
+        out.append(U(8, v))
+    return Native('String', b=out)
+@model_re(r'^<&?(String|str|&str) as (Ord|PartialOrd)(<.*>)?>::(cmp|partial_cmp|lt|le|gt|ge)$')
+def _(M, a, c):
+    fn = norm_name(c).split('::')[-1]; x = _sort_key(M, as_str_native(a[0])); y = _sort_key(M, as_str_native(a[1]))
+    v = 0 if x < y else (1 if x == y else 2)
+    if fn in ('lt', 'le', 'gt', 'ge'): return {'lt': v == 0, 'le': v <= 1, 'gt': v == 2, 'ge': v >= 1}[fn]
+    o = Agg('Ordering', v, [])
+    return some(o) if fn == 'partial_cmp' else o
+def as_str_native(x):
+    s = _bytes(x); return Slice(s.b, s.lo, s.hi, True)
